@@ -31,10 +31,11 @@ type hdrOp struct {
 }
 
 type pMut struct {
-	K   string `json:"k"` // set | u64 | u32 | varp | cut | ins | app
-	Off int    `json:"off,omitempty"`
-	V   uint64 `json:"v,omitempty"`
-	B   ev.B   `json:"b,omitempty"`
+	K    string `json:"k"`              // set | u64 | u32 | u16 | varp | cut | ins | app
+	Mark bool   `json:"mark,omitempty"` // Off selects one of the count / length fields of the original payload
+	Off  int    `json:"off,omitempty"`
+	V    uint64 `json:"v,omitempty"`
+	B    ev.B   `json:"b,omitempty"`
 }
 
 type c05Case struct {
@@ -123,13 +124,14 @@ func gCmd() *rapid.Generator[ev.B] {
 func gPMut() *rapid.Generator[pMut] {
 	boundary := []uint64{0, 1, 63, 64, 65, 0xFC, 0xFD, 0xFE, 0xFF, 0xFFFF, 0x10000, 0xFFFFFFFF, 1 << 32, 1<<63 - 1, 1 << 63, 1<<63 + 1, 1<<64 - 1}
 	return rapid.Custom(func(t *rapid.T) pMut {
-		k := rapid.SampledFrom([]string{"set", "u64", "u64", "u32", "u32", "varp", "varp", "cut", "ins", "app"}).Draw(t, "mut")
+		k := rapid.SampledFrom([]string{"set", "u64", "u64", "u32", "u32", "u16", "varp", "varp", "varp", "cut", "ins", "app"}).Draw(t, "mut")
 		m := pMut{K: k}
 		m.Off = rapid.OneOf(rapid.Just(0), rapid.Just(1), rapid.IntRange(0, 1<<16)).Draw(t, "off")
+		m.Mark = rapid.Bool().Draw(t, "atmark")
 		switch k {
 		case "set":
 			m.V = uint64(rapid.Byte().Draw(t, "val"))
-		case "u64", "u32", "varp":
+		case "u64", "u32", "u16", "varp":
 			m.V = rapid.OneOf(rapid.SampledFrom(boundary), rapid.Uint64Range(0, 300), rapid.Uint64()).Draw(t, "val")
 		case "ins", "app":
 			m.B = gBytes(1, 40).Draw(t, "bytes")
@@ -299,7 +301,7 @@ func flatImplSafe(m types.Message) (f flat) {
 // ---------------------------------------------------------------------------------------------
 // stream construction helpers
 
-func applyPMuts(p []byte, muts []pMut) []byte {
+func applyPMuts(p []byte, marks []int, muts []pMut) []byte {
 	p = append([]byte(nil), p...)
 	for _, m := range muts {
 		n := len(p)
@@ -319,9 +321,18 @@ func applyPMuts(p []byte, muts []pMut) []byte {
 			continue
 		}
 		off := m.Off % n
+		if m.Mark && len(marks) > 0 { // marks refer to the unmutated payload: most useful for the first mutation
+			if mk := marks[m.Off%len(marks)]; mk < n {
+				off = mk
+			}
+		}
 		switch m.K {
 		case "set":
 			p[off] = byte(m.V)
+		case "u16":
+			var b [2]byte
+			binary.LittleEndian.PutUint16(b[:], uint16(m.V))
+			copy(p[off:], b[:])
 		case "u64":
 			var b [8]byte
 			binary.LittleEndian.PutUint64(b[:], m.V)
@@ -528,9 +539,11 @@ func runC05(ctx *ev.Ctx, c c05Case) {
 		var s []byte
 		if c.Mode == "payload" || c.Framed {
 			var base []byte
+			var marks []int
 			cmd := []byte(c.Cmd)
 			if len(c.Msgs) > 0 {
-				base = refPayload(c.Msgs[0])
+				e := refPayloadEnc(c.Msgs[0])
+				base, marks = e.b, e.marks
 				if len(cmd) == 0 {
 					cmd = []byte(c.Msgs[0].Kind)
 				}
@@ -538,7 +551,7 @@ func runC05(ctx *ev.Ctx, c c05Case) {
 			} else {
 				base = c.Raw
 			}
-			s = refFrame(c.Magic, cmd, applyPMuts(base, c.PMuts))
+			s = refFrame(c.Magic, cmd, applyPMuts(base, marks, c.PMuts))
 			s = append(s, c.Tail...)
 		} else {
 			s = append([]byte(nil), c.Raw...)
@@ -659,6 +672,12 @@ func runSweep(ctx *ev.Ctx, c c05Case) {
 	if base != "known-panic" && (base == "accept") != expectAccept {
 		ctx.Failf("uncorrupted %s frame: outcome %s, expected accept=%v", m.Kind, base, expectAccept)
 	}
+	if base == "accept" {
+		msg, _, _ := types.ReadMessage(bytes.NewReader(stream))
+		if d := flatImplSafe(msg).diff(flatCase(m)); d != "" {
+			ctx.Failf("uncorrupted %s frame decodes to other field values than were written: %s", m.Kind, d)
+		}
+	}
 	ctx.NonTrivial()
 	rec := ev.Get("C05")
 	total, accepted, skipped := 0, 0, 0
@@ -712,7 +731,9 @@ func runBig(ctx *ev.Ctx, c c05Case) {
 // gridCases: the deterministic part — for every kind one exhaustive single-byte sweep (all 255
 // other values at every offset of a small canonical frame) and the payload-size boundary.
 func gridCases() []c05Case {
-	var out []c05Case
+	// every shard starts with the limit+1 payload: a reader that lost its size limit would otherwise
+	// spend the whole budget clearing multi-GiB buffers in the sweeps instead of being reported
+	out := []c05Case{{Mode: "big", Magic: 0x8c77ab60, BigLen: maxPayload + 1}}
 	n := 0
 	add := func(c c05Case) {
 		if n%ev.Shards() == ev.Shard() {
@@ -720,11 +741,11 @@ func gridCases() []c05Case {
 		}
 		n++
 	}
+	for _, l := range []int{maxPayload - 1, maxPayload} {
+		add(c05Case{Mode: "big", Magic: 0x8c77ab60, BigLen: l})
+	}
 	for _, k := range kinds {
 		add(c05Case{Mode: "sweep", Magic: 0x8c77ab60, Msgs: []pMsg{canon(k)}, Full: true, Large: true, Tail: ev.B{0x60, 0xab, 0x77, 0x8c}})
-	}
-	for _, l := range []int{maxPayload - 1, maxPayload, maxPayload + 1} {
-		add(c05Case{Mode: "big", Magic: 0x8c77ab60, BigLen: l})
 	}
 	return out
 }
